@@ -70,6 +70,7 @@ type TxShape struct {
 	MetaGarbage bool         `json:"meta_garbage,omitempty"`
 	NoIndex     bool         `json:"no_index,omitempty"`    // position index omitted
 	NoMeta      bool         `json:"no_meta,omitempty"`     // empty metadata
+	CidSha512   bool         `json:"cid_sha512,omitempty"`  // the Transaction node is addressed by a sha2-512 CID
 	BigAmounts  bool         `json:"big_amounts,omitempty"` // fee, balances and compute units above 2^53 (not representable as float64)
 	TxPad       int          `json:"tx_pad,omitempty"`      // extra instruction data bytes
 	Meta        PayloadShape `json:"meta,omitempty"`
@@ -85,7 +86,8 @@ type BlockShape struct {
 	NoHeight   bool          `json:"no_height,omitempty"`
 	Height     uint64        `json:"height,omitempty"` // 0 = derived
 	Entries    [][]TxShape   `json:"entries"`
-	Rewards    *PayloadShape `json:"rewards,omitempty"` // nil = no rewards (dummy CID)
+	Rewards    *PayloadShape `json:"rewards,omitempty"`    // nil = no rewards (dummy CID)
+	CidSha512  bool          `json:"cid_sha512,omitempty"` // the Block node is addressed by a sha2-512 CID (68 bytes instead of 36)
 }
 
 type Shape struct {
@@ -411,7 +413,7 @@ func Generate(shape Shape) *Truth {
 			bt.Height, bt.HasHeight = h, true
 			blk.Meta.Block_height = pp(int(h))
 		}
-		c, oi := g.add(encode(&blk, ipldbindcode.Prototypes.Block.Type()), KindBlock, false)
+		c, oi := g.add(encode(&blk, ipldbindcode.Prototypes.Block.Type()), KindBlock, bs.CidSha512)
 		bt.Cid, bt.Obj = c, oi
 		t.Blocks = append(t.Blocks, bt)
 		prev = slot
@@ -584,7 +586,7 @@ func (g *gen) tx(ts TxShape, slot uint64, pos, blockIdx, counter int) TxTruth {
 	if !ts.NoIndex {
 		node.Index = pp(pos)
 	}
-	c, oi := g.add(encode(&node, ipldbindcode.Prototypes.Transaction.Type()), KindTransaction, false)
+	c, oi := g.add(encode(&node, ipldbindcode.Prototypes.Transaction.Type()), KindTransaction, ts.CidSha512)
 	tt.Cid, tt.Obj = c, oi
 	return tt
 }
